@@ -36,6 +36,10 @@ func (l Lit) Formula() *Formula {
 type Disj struct {
 	L   map[string]Lit // by atom key
 	key string
+	// cache of canonical()
+	canonFor string
+	canonD   *Disj
+	canonRep map[string]*Term
 }
 
 func newDisj() *Disj { return &Disj{L: map[string]Lit{}} }
@@ -445,6 +449,27 @@ func (d *Disj) entailsLit(l Lit) bool {
 	if d.entailsLit0(l) {
 		return true
 	}
+	// modulo the equalities in force: goal and facts rewritten over one representative per class
+	if cd, rep := d.canonical(); cd != nil {
+		na := rewriteAtom(l.A, rep)
+		if na.key != l.A.key || cd != d {
+			fm := foldAtom(na)
+			switch fm.Op {
+			case 'T':
+				if !l.Neg {
+					return true
+				}
+			case 'F':
+				if l.Neg {
+					return true
+				}
+			default:
+				if cd.entailsLit0(Lit{A: na, Neg: l.Neg}) {
+					return true
+				}
+			}
+		}
+	}
 	type eqn struct{ a, b *Term }
 	var eqs []eqn
 	for _, m := range d.L {
@@ -494,6 +519,121 @@ func (d *Disj) entailsLit(l Lit) bool {
 		}
 	}
 	return false
+}
+
+// canonical returns the disjunct with every term rewritten to the representative of its
+// equivalence class under the positive equalities (nil if there are none), and the rewriting.
+func (d *Disj) canonical() (*Disj, map[string]*Term) {
+	if k := d.Key(); d.canonFor == k {
+		return d.canonD, d.canonRep
+	}
+	cd, rep := d.canonical0()
+	d.canonFor, d.canonD, d.canonRep = d.Key(), cd, rep
+	return cd, rep
+}
+
+func (d *Disj) canonical0() (*Disj, map[string]*Term) {
+	parent := map[string]string{}
+	terms := map[string]*Term{}
+	var find func(k string) string
+	find = func(k string) string {
+		p, ok := parent[k]
+		if !ok || p == k {
+			return k
+		}
+		r := find(p)
+		parent[k] = r
+		return r
+	}
+	isConst := func(t *Term) bool { return t.K == 'c' || t.K == 'n' }
+	n := 0
+	for _, l := range d.L {
+		if l.A.Op == "eq" && !l.Neg && !isConst(l.A.L) && !isConst(l.A.R) && l.A.L.K != 'o' && l.A.R.K != 'o' {
+			terms[l.A.L.key], terms[l.A.R.key] = l.A.L, l.A.R
+			a, b := find(l.A.L.key), find(l.A.R.key)
+			if a != b {
+				// the smaller key becomes the root (deterministic)
+				if a < b {
+					parent[b] = a
+				} else {
+					parent[a] = b
+				}
+				n++
+			}
+		}
+	}
+	if n == 0 {
+		return nil, nil
+	}
+	rep := map[string]*Term{}
+	for k := range terms {
+		if r := find(k); r != k {
+			rep[k] = terms[r]
+		}
+	}
+	out := newDisj()
+	for _, l := range d.L {
+		na := rewriteAtom(l.A, rep)
+		fm := foldAtom(na)
+		if fm.Op != 'A' {
+			continue
+		}
+		out.L[na.key] = Lit{A: na, Neg: l.Neg}
+	}
+	return out, rep
+}
+
+func rewriteTerm(t *Term, rep map[string]*Term) *Term {
+	if t == nil {
+		return nil
+	}
+	if r, ok := rep[t.key]; ok {
+		return r
+	}
+	if len(t.A) == 0 {
+		return t
+	}
+	changed := false
+	args := make([]*Term, len(t.A))
+	for i, a := range t.A {
+		args[i] = rewriteTerm(a, rep)
+		if args[i] != a {
+			changed = true
+		}
+	}
+	if !changed {
+		return t
+	}
+	nt := mk(t.K, t.S, t.Obj, t.Typ, args...)
+	nt.Fn = t.Fn
+	if r, ok := rep[nt.key]; ok {
+		return r
+	}
+	return nt
+}
+
+func rewriteAtom(a *Atom, rep map[string]*Term) *Atom {
+	switch a.Op {
+	case "b":
+		l := rewriteTerm(a.L, rep)
+		if l == a.L {
+			return a
+		}
+		return BoolAtom(l)
+	case "eq":
+		l, r := rewriteTerm(a.L, rep), rewriteTerm(a.R, rep)
+		if l == a.L && r == a.R {
+			return a
+		}
+		return Eq(l, r)
+	case "lt":
+		l, r := rewriteTerm(a.L, rep), rewriteTerm(a.R, rep)
+		if l == a.L && r == a.R {
+			return a
+		}
+		return Lt(l, r)
+	}
+	return a
 }
 
 func (d *Disj) entailsLit0(l Lit) bool {
@@ -748,7 +888,15 @@ func newBounds(d *Disj) *bounds {
 		c    int64
 	}
 	var cs []cons
-	node := func(t *Term) string {
+	// sums and differences of two non-constant terms: t = a ⊕ b, tied to their operands after a first closure
+	type def struct {
+		t, ab, bb string
+		ao, bo    int64
+		minus     bool
+	}
+	var defs []def
+	var node func(t *Term) string
+	node = func(t *Term) string {
 		if t == nil {
 			return "0"
 		}
@@ -756,6 +904,13 @@ func newBounds(d *Disj) *bounds {
 			b.idx[t.key] = len(b.idx)
 			if t.K == 'k' && (t.S == "len" || t.S == "cap") {
 				cs = append(cs, cons{"0", t.key, 0}) // 0 - len <= 0
+			}
+			if t.K == 'b' && (t.S == "+" || t.S == "-") && len(t.A) == 2 && isIntegerType(t.Typ) {
+				ab, ao, ok1 := linear(t.A[0])
+				bb, bo, ok2 := linear(t.A[1])
+				if ok1 && ok2 && (ab != nil || bb != nil) {
+					defs = append(defs, def{t.key, node(ab), node(bb), ao, bo, t.S == "-"})
+				}
 			}
 		}
 		return t.key
@@ -804,19 +959,101 @@ func newBounds(d *Disj) *bounds {
 			b.d[i][j] = c.c
 		}
 	}
-	for k := 0; k < n; k++ {
-		for i := 0; i < n; i++ {
-			if b.d[i][k] == inf {
-				continue
-			}
-			for j := 0; j < n; j++ {
-				if b.d[k][j] == inf {
+	closure := func() {
+		for k := 0; k < n; k++ {
+			for i := 0; i < n; i++ {
+				if b.d[i][k] == inf {
 					continue
 				}
-				if v := b.d[i][k] + b.d[k][j]; v < b.d[i][j] {
-					b.d[i][j] = v
+				for j := 0; j < n; j++ {
+					if b.d[k][j] == inf {
+						continue
+					}
+					if v := b.d[i][k] + b.d[k][j]; v < b.d[i][j] {
+						b.d[i][j] = v
+					}
 				}
 			}
+		}
+	}
+	closure()
+	// x != y with x <= y known becomes x < y (and the other way round)
+	{
+		tight := false
+		for _, l := range d.L {
+			if l.A.Op != "eq" || !l.Neg {
+				continue
+			}
+			if !(isIntegerType(l.A.L.Typ) || isIntegerType(l.A.R.Typ)) {
+				continue
+			}
+			lb, lo, ok1 := linear(l.A.L)
+			rb, ro, ok2 := linear(l.A.R)
+			if !ok1 || !ok2 {
+				continue
+			}
+			xi, okx := b.idx[keyOrZero(lb)]
+			yi, oky := b.idx[keyOrZero(rb)]
+			if !okx || !oky || xi == yi {
+				continue
+			}
+			// (x+lo) != (y+ro); x - y <= d[xi][yi]
+			if b.d[xi][yi] == ro-lo { // x - y <= ro - lo, i.e. x+lo <= y+ro: make it strict
+				b.d[xi][yi] = ro - lo - 1
+				tight = true
+			}
+			if b.d[yi][xi] == lo-ro {
+				b.d[yi][xi] = lo - ro - 1
+				tight = true
+			}
+		}
+		if tight {
+			closure()
+		}
+	}
+	if len(defs) > 0 {
+		changed := false
+		set := func(x, y int, c int64) {
+			if c < b.d[x][y] && x != y {
+				b.d[x][y] = c
+				changed = true
+			}
+		}
+		fin := func(v int64) bool { return v < inf/2 }
+		for _, df := range defs {
+			t, a, bb := b.idx[df.t], b.idx[df.ab], b.idx[df.bb]
+			if df.minus {
+				// t = (a+ao) - (bb+bo)
+				if v := b.d[a][bb]; fin(v) { // a - bb <= v  =>  t <= v + ao - bo
+					set(t, 0, v+df.ao-df.bo)
+				}
+				if v := b.d[bb][a]; fin(v) { // bb - a <= v  =>  -t <= v + bo - ao
+					set(0, t, v+df.bo-df.ao)
+				}
+				if v := b.d[0][bb]; fin(v) { // -bb <= v  =>  t - a = ao - bb - bo <= ao + v - bo
+					set(t, a, df.ao+v-df.bo)
+				}
+				if v := b.d[bb][0]; fin(v) { // bb <= v  =>  a - t = bb + bo - ao <= v + bo - ao
+					set(a, t, v+df.bo-df.ao)
+				}
+			} else {
+				// t = (a+ao) + (bb+bo)
+				if v := b.d[bb][0]; fin(v) { // t - a = ao + bb + bo <= ao + v + bo
+					set(t, a, df.ao+v+df.bo)
+				}
+				if v := b.d[0][bb]; fin(v) { // a - t = -(ao + bb + bo) <= v - ao - bo
+					set(a, t, v-df.ao-df.bo)
+				}
+				if v := b.d[a][0]; fin(v) {
+					set(t, bb, df.bo+v+df.ao)
+				}
+				if v := b.d[0][a]; fin(v) {
+					set(bb, t, v-df.ao-df.bo)
+				}
+			}
+		}
+		if changed {
+			closure()
 		}
 	}
 	for i := 0; i < n; i++ {
@@ -825,6 +1062,13 @@ func newBounds(d *Disj) *bounds {
 		}
 	}
 	return b
+}
+
+func keyOrZero(t *Term) string {
+	if t == nil {
+		return "0"
+	}
+	return t.key
 }
 
 func (b *bounds) consistent() bool { return b.ok }
@@ -839,4 +1083,33 @@ func (s State) Mentions(pred func(*Term) bool) bool {
 		}
 	}
 	return false
+}
+
+// EqualTerms lists the terms the disjunct knows equal to t (transitively), t excluded.
+func (d *Disj) EqualTerms(t *Term) []*Term {
+	adj := map[string][]*Term{}
+	for _, l := range d.L {
+		if l.A.Op == "eq" && !l.Neg {
+			adj[l.A.L.key] = append(adj[l.A.L.key], l.A.R)
+			adj[l.A.R.key] = append(adj[l.A.R.key], l.A.L)
+		}
+	}
+	seen := map[string]bool{t.key: true}
+	var out []*Term
+	work := []*Term{t}
+	for len(work) > 0 {
+		x := work[len(work)-1]
+		work = work[:len(work)-1]
+		for _, y := range adj[x.key] {
+			if !seen[y.key] {
+				seen[y.key] = true
+				out = append(out, y)
+				if y.K != 'c' && y.K != 'n' {
+					work = append(work, y)
+				}
+			}
+		}
+	}
+	sort.Slice(out, func(i, j int) bool { return out[i].key < out[j].key })
+	return out
 }
